@@ -318,3 +318,128 @@ package spine
 //@   ensures[C14] accepted-only: result == nil ==> forall d int :: old(spawnn) <= d && d < spawnn - len(CBS) ==> spawnfn[d] == HE
 //@   ensures[C14] accepted-event: result == nil ==> evn == old(evn) + 1 && ev[old(evn)].EventType == api.EventTypeDataChange && ev[old(evn)].Feature == old(message.FeatureRemote) && ev[old(evn)].Function == cmdFct(old(message.Cmd)) && ev[old(evn)].Data == cmdValue(old(message.Cmd))
 //@   modifies map(gomap[model.MsgCounterType][]func(api.ResponseMessage)), held, @PUBLISH
+
+// ---------------------------------------------------------------------------------------
+// sender (C13, C01)
+//   sentctr[w][k] : message counter of the k-th datagram written to writer w
+//   sent(w, k)    : the k-th datagram written to writer w (view of the wire log)
+//@ ghost sentctr map[any]map[int]int
+//@ define sent(w, k) = jsonof[wiremsg[w][k]].(model.Datagram).Datagram
+//@ modset WIRE = wiren, wiremsg, jsonof, sentctr
+
+//@ func (*Sender).getMsgCounter
+//@   requires c != nil
+//@   ensures[C13] fresh-counter: result != nil && fresh(result) && *result == old(c.msgNum) + 1 && c.msgNum == old(c.msgNum) + 1
+//@   modifies c.msgNum
+
+//@ func (*Sender).sendSpineMessage
+//@   requires c != nil && datagram.Header.MsgCounter != nil
+//@   let W = c.writeHandler
+//@   ensures[C13,C01] written-once: result == nil ==> wiren == store(old(wiren), W, old(wiren)[W] + 1) && sent(W, old(wiren)[W]) == datagram
+//@   ensures[C13,C01] not-written: result != nil ==> wiren == old(wiren) && wiremsg == old(wiremsg)
+//@   ensures[C13,C01] others: forall k int :: k < old(wiren)[W] ==> wiremsg[W][k] == old(wiremsg)[W][k]
+//@   defines[sentctr] (result == nil ==> sentctr == store(old(sentctr), W, store(old(sentctr)[W], old(wiren)[W], *datagram.Header.MsgCounter))) && (result != nil ==> sentctr == old(sentctr))
+//@   modifies @WIRE
+
+// a response datagram D answering request header RH, sent in the name of local address SA
+//@ define responds(D, RH, SA) = D.Header.MsgCounterReference == RH.MsgCounter && D.Header.AddressDestination == RH.AddressSource && D.Header.AddressSource != nil && D.Header.AddressSource.Device == SA.Device && D.Header.AddressSource.Entity == RH.AddressDestination.Entity && D.Header.AddressSource.Feature == RH.AddressDestination.Feature && D.Header.AckRequest == nil
+//@ define classifierOf(D) = *D.Header.CmdClassifier
+
+//@ func (*Sender).result
+//@   requires c != nil && requestHeader != nil && requestHeader.AddressDestination != nil && senderAddress != nil
+//@   let W = c.writeHandler
+//@   let K = wiren[W]
+//@   ensures[C01,C13] one-result: result == nil ==> wiren == store(old(wiren), W, K + 1) && classifierOf(sent(W, K)) == model.CmdClassifierTypeResult && responds(sent(W, K), requestHeader, senderAddress)
+//@   ensures[C01,C13] payload: result == nil ==> len(sent(W, K).Payload.Cmd) == 1 && sent(W, K).Payload.Cmd[0].ResultData != nil && sent(W, K).Payload.Cmd[0].ResultData.ErrorNumber != nil && *sent(W, K).Payload.Cmd[0].ResultData.ErrorNumber == ite(err == nil, model.ErrorNumberTypeNoError, old(err.ErrorNumber))
+//@   ensures[C13] counter: c.msgNum == old(c.msgNum) + 1 && (result == nil ==> *sent(W, K).Header.MsgCounter == old(c.msgNum) + 1)
+//@   ensures[C13] logged: result == nil ==> sentctr[W][K] == old(c.msgNum) + 1
+//@   ensures[C01,C13] none-on-error: result != nil ==> wiren == old(wiren)
+//@   ensures[C01,C13] older: forall k int :: k < K ==> wiremsg[W][k] == old(wiremsg)[W][k] && sentctr[W][k] == old(sentctr)[W][k]
+//@   modifies @WIRE, c.msgNum
+
+//@ func (*Sender).ResultSuccess
+//@   requires c != nil && requestHeader != nil && requestHeader.AddressDestination != nil && senderAddress != nil
+//@   let W = c.writeHandler
+//@   let K = wiren[W]
+//@   ensures[C01] one-result: result == nil ==> wiren == store(old(wiren), W, K + 1) && classifierOf(sent(W, K)) == model.CmdClassifierTypeResult && responds(sent(W, K), requestHeader, senderAddress) && *sent(W, K).Payload.Cmd[0].ResultData.ErrorNumber == model.ErrorNumberTypeNoError
+//@   ensures[C01] none-on-error: result != nil ==> wiren == old(wiren)
+//@   ensures[C01] older: forall k int :: k < K ==> wiremsg[W][k] == old(wiremsg)[W][k] && sentctr[W][k] == old(sentctr)[W][k]
+//@   modifies @WIRE, c.msgNum
+
+//@ func (*Sender).ResultError
+//@   requires c != nil && requestHeader != nil && requestHeader.AddressDestination != nil && senderAddress != nil && err != nil
+//@   let W = c.writeHandler
+//@   let K = wiren[W]
+//@   ensures[C01] one-result: result == nil ==> wiren == store(old(wiren), W, K + 1) && classifierOf(sent(W, K)) == model.CmdClassifierTypeResult && responds(sent(W, K), requestHeader, senderAddress) && *sent(W, K).Payload.Cmd[0].ResultData.ErrorNumber == old(err.ErrorNumber)
+//@   ensures[C01] none-on-error: result != nil ==> wiren == old(wiren)
+//@   ensures[C01] older: forall k int :: k < K ==> wiremsg[W][k] == old(wiremsg)[W][k] && sentctr[W][k] == old(sentctr)[W][k]
+//@   modifies @WIRE, c.msgNum
+
+//@ func (*Sender).Reply
+//@   requires c != nil && requestHeader != nil && requestHeader.AddressDestination != nil && senderAddress != nil
+//@   let W = c.writeHandler
+//@   let K = wiren[W]
+//@   ensures[C01,C13] one-reply: result == nil ==> wiren == store(old(wiren), W, K + 1) && classifierOf(sent(W, K)) == model.CmdClassifierTypeReply && responds(sent(W, K), requestHeader, senderAddress) && len(sent(W, K).Payload.Cmd) == 1 && sent(W, K).Payload.Cmd[0] == cmd
+//@   ensures[C13] counter: c.msgNum == old(c.msgNum) + 1 && (result == nil ==> *sent(W, K).Header.MsgCounter == old(c.msgNum) + 1)
+//@   ensures[C13] logged: result == nil ==> sentctr[W][K] == old(c.msgNum) + 1
+//@   ensures[C01,C13] none-on-error: result != nil ==> wiren == old(wiren)
+//@   ensures[C01,C13] older: forall k int :: k < K ==> wiremsg[W][k] == old(wiremsg)[W][k] && sentctr[W][k] == old(sentctr)[W][k]
+//@   modifies @WIRE, c.msgNum
+
+//@ func (*Sender).Notify
+//@   requires c != nil && c.datagramNotifyCache != nil
+//@   let W = c.writeHandler
+//@   let K = wiren[W]
+//@   ensures[C13,C08] one-notify: result1 == nil ==> wiren == store(old(wiren), W, K + 1) && classifierOf(sent(W, K)) == model.CmdClassifierTypeNotify && sent(W, K).Header.AddressSource == senderAddress && sent(W, K).Header.AddressDestination == destinationAddress && sent(W, K).Header.MsgCounterReference == nil && len(sent(W, K).Payload.Cmd) == 1 && sent(W, K).Payload.Cmd[0] == cmd
+//@   ensures[C13] counter: c.msgNum == old(c.msgNum) + 1 && result0 != nil && *result0 == old(c.msgNum) + 1 && (result1 == nil ==> *sent(W, K).Header.MsgCounter == old(c.msgNum) + 1)
+//@   ensures[C13] logged: result1 == nil ==> sentctr[W][K] == old(c.msgNum) + 1
+//@   ensures[C13,C08] none-on-error: result1 != nil ==> wiren == old(wiren)
+//@   ensures[C13,C08] older: forall k int :: k < K ==> wiremsg[W][k] == old(wiremsg)[W][k] && sentctr[W][k] == old(sentctr)[W][k]
+//@   modifies @WIRE, c.msgNum, held, lru
+
+//@ func (*Sender).Write
+//@   requires c != nil
+//@   let W = c.writeHandler
+//@   let K = wiren[W]
+//@   ensures[C13] one-write: result1 == nil ==> wiren == store(old(wiren), W, K + 1) && classifierOf(sent(W, K)) == model.CmdClassifierTypeWrite && sent(W, K).Header.AddressSource == senderAddress && sent(W, K).Header.AddressDestination == destinationAddress && sent(W, K).Header.AckRequest != nil && *sent(W, K).Header.AckRequest && len(sent(W, K).Payload.Cmd) == 1 && sent(W, K).Payload.Cmd[0] == cmd
+//@   ensures[C13] counter: c.msgNum == old(c.msgNum) + 1 && result0 != nil && *result0 == old(c.msgNum) + 1 && (result1 == nil ==> *sent(W, K).Header.MsgCounter == old(c.msgNum) + 1)
+//@   ensures[C13] logged: result1 == nil ==> sentctr[W][K] == old(c.msgNum) + 1
+//@   ensures[C13] none-on-error: result1 != nil ==> wiren == old(wiren)
+//@   ensures[C13] older: forall k int :: k < K ==> wiremsg[W][k] == old(wiremsg)[W][k] && sentctr[W][k] == old(sentctr)[W][k]
+//@   modifies @WIRE, c.msgNum
+
+// request de-duplication (C13): reqMsgCache maps the counter of every unanswered request to the hash of
+// (destination, command). hashForMessage is an (assumed injective) function of destination and command.
+//@ func (*Sender).hashForMessage trusted pure
+
+//@ func (*Sender).msgCounterForHashFromCache
+//@   requires c != nil
+//@   ensures[C13] found: result != nil ==> fresh(result) && has(c.reqMsgCache, *result) && c.reqMsgCache[*result] == hash
+//@   ensures[C13] absent: result == nil ==> forall k model.MsgCounterType :: has(c.reqMsgCache, k) ==> c.reqMsgCache[k] != hash
+//@   modifies held
+//@   loop 0 invariant seen: forall k model.MsgCounterType :: $visited[k] ==> c.reqMsgCache[k] != hash
+//@   loop 0 invariant frame: unchangedPre(model.MsgCounterType)
+
+//@ func (*Sender).hasMsgCounterInCache
+//@   requires c != nil
+//@   ensures[C13] exact: result <==> has(c.reqMsgCache, msgCounter)
+//@   modifies held
+
+//@ func (*Sender).ProcessResponseForMsgCounterReference
+//@   requires c != nil
+//@   ensures[C13] erased: msgCounterRef != nil ==> !has(c.reqMsgCache, *msgCounterRef)
+//@   ensures[C13] others: forall k model.MsgCounterType :: (msgCounterRef == nil || k != *msgCounterRef) ==> has(c.reqMsgCache, k) == old(has(c.reqMsgCache, k)) && c.reqMsgCache[k] == old(c.reqMsgCache[k])
+//@   ensures[C13] shrinks: len(c.reqMsgCache) <= old(len(c.reqMsgCache))
+//@   modifies map(gomap[model.MsgCounterType]string), held
+
+//@ func (*Sender).addMsgCounterHashToCache
+//@   requires c != nil && c.reqMsgCache != nil && len(c.reqMsgCache) <= 21
+//@   ensures[C13] recorded: has(c.reqMsgCache, msgCounter) && c.reqMsgCache[msgCounter] == hash
+//@   ensures[C13] bounded: len(c.reqMsgCache) <= 21
+//@   ensures[C13] evicts-only-when-full: old(len(c.reqMsgCache)) <= 20 ==> forall k model.MsgCounterType :: k != msgCounter ==> has(c.reqMsgCache, k) == old(has(c.reqMsgCache, k)) && c.reqMsgCache[k] == old(c.reqMsgCache[k])
+//@   ensures[C13] evicts-oldest: old(len(c.reqMsgCache)) > 20 ==> exists o model.MsgCounterType :: old(has(c.reqMsgCache, o)) && (forall k model.MsgCounterType :: old(has(c.reqMsgCache, k)) ==> o <= k) && forall k model.MsgCounterType :: k != msgCounter && k != o ==> has(c.reqMsgCache, k) == old(has(c.reqMsgCache, k)) && c.reqMsgCache[k] == old(c.reqMsgCache[k])
+//@   modifies map(gomap[model.MsgCounterType]string), held
+//@   loop 0 invariant collected: forall k model.MsgCounterType :: $visited[k] ==> exists i int :: {keys[i]} 0 <= i && i < len(keys) && keys[i] == k
+//@   loop 0 invariant only-keys: forall i int :: 0 <= i && i < len(keys) ==> has(c.reqMsgCache, cast(model.MsgCounterType, keys[i]))
+//@   loop 0 invariant frame: unchangedPreOld(uint64) && unchangedPreOld([]uint64)
+//@   loop 0 invariant keys-new: fresh(keys)
